@@ -66,7 +66,19 @@ func miscHandler(args []string) (string, []string) {
 		if e1 != nil || !ok {
 			return "bad-request", nil
 		}
+		var g guards
+		given := append([]int{}, l...)
+		l = spareInts(&g, l)
 		idx := utils.BisectLeft(l, v)
+		for _, it := range g.report("C19", "misc "+strings.Join(args, " ")) {
+			ps.items = append(ps.items, it)
+		}
+		for i := range given {
+			if l[i] != given[i] {
+				ps.add("C19", "list=%s key=%d BisectLeft changed the list it was given (element %d is now %d)", args[2], v, i, l[i])
+				break
+			}
+		}
 		sorted := true
 		for i := 1; i < len(l); i++ {
 			sorted = sorted && l[i-1] <= l[i]
